@@ -312,10 +312,28 @@ Qed.
 Lemma get_dial_addr_override uh d dp :
   d <> [] -> is_unix_addr d = false ->
   get_dial_addr uh d dp =
-  match snd (try_split_host_port d) with [] => join_host_port (fst (try_split_host_port d)) dp | _ :: _ => d end.
+  match snd (try_split_host_port d) with
+  | [] => join_host_port (try_trim_brackets (fst (try_split_host_port d))) dp | _ :: _ => d end.
 Proof.
   intros Hne Hu. unfold get_dial_addr. destruct d as [|x xs]; [congruence|]. rewrite Hu.
   destruct (try_split_host_port (x :: xs)) as [hh pp]. reflexivity.
+Qed.
+
+Lemma trim_no_lbr s : has_byte ch_lbr s = false -> try_trim_brackets s = s.
+Proof.
+  destruct s as [|c t]; [reflexivity|]. intros H. apply has_byte_cons_false in H.
+  apply trim_not_bracket, H.
+Qed.
+
+(* "[v]" without a port does not split: missing port *)
+Lemma split_bracketed_bare v :
+  has_byte ch_rbr v = false -> split_host_port (ch_lbr :: v ++ [ch_rbr]) = None.
+Proof.
+  intros Hr. unfold split_host_port.
+  destruct (rsplit ch_colon (ch_lbr :: v ++ [ch_rbr])) as [[pre port]|]; [|reflexivity].
+  rewrite N.eqb_refl.
+  change (ch_lbr :: v ++ [ch_rbr]) with ((ch_lbr :: v) ++ ch_rbr :: []).
+  rewrite lsplit_app by (rewrite has_byte_cons, Hr; reflexivity). reflexivity.
 Qed.
 
 (* getDialAddr with an override of the grammar *)
@@ -336,7 +354,7 @@ Proof.
       rewrite (split_plain_port _ _ Hne Pl (digits_plain _ Pd)); cbn [fst snd];
       destruct p as [|d p']; [congruence|];
       rewrite (join_plain _ _ Hc); reflexivity
-    | unfold try_split_host_port; rewrite (split_no_colon _ Hc); reflexivity ]).
+    | unfold try_split_host_port; rewrite (split_no_colon _ Hc); cbn [fst snd]; rewrite (trim_no_lbr _ Hl); reflexivity ]).
   destruct (wf_v6_facts _ W) as (Hl & Hr & Hcnt & Hc & _).
   destruct dpo as [p|]; cbn [dial_text host_text host_name].
   - destruct (wf_port_facts _ Wp) as [Pne Pd].
@@ -346,7 +364,18 @@ Proof.
     rewrite (split_v6_port _ _ Hl Hr (digits_plain _ Pd)). cbn [fst snd].
     destruct p as [|d p']; [congruence|].
     rewrite (join_v6 _ _ Hc). reflexivity.
-  - unfold try_split_host_port. rewrite (split_v6_bare _ Hl Hcnt). reflexivity.
+  - unfold try_split_host_port. rewrite (split_v6_bare _ Hl Hcnt). cbn [fst snd]. rewrite (trim_no_lbr _ Hl). reflexivity.
+Qed.
+
+(* a bracketed IPv6 override WITHOUT a port ("[::1]"): the brackets are removed before the default port is joined
+   (this is what finding K5 was about: the brackets used to be kept and doubled) *)
+Lemma dial_bracketed_facts uh v dp :
+  wf_host (HV6 v) = true ->
+  get_dial_addr uh (ch_lbr :: v ++ [ch_rbr]) dp = join_host_port v dp.
+Proof.
+  intros W. destruct (wf_v6_facts _ W) as (Hl & Hr & Hcnt & Hc & _).
+  unfold get_dial_addr. cbn [is_unix_addr]. change (ch_lbr =? ch_at) with false. cbv iota.
+  unfold try_split_host_port. rewrite (split_bracketed_bare _ Hr), trim_bracketed. reflexivity.
 Qed.
 
 Lemma dial_unix uh d dp : is_unix_addr d = true -> get_dial_addr uh d dp = d /\ network_of d = NUnix.
@@ -383,6 +412,21 @@ Proof.
   rewrite (dial_override_facts _ dh dpo (default_port sc) Wd Wdp), Hs.
   unfold port_or_default, expected_net, network_of.
   rewrite (join_not_unix _ _ Wd). repeat split.
+Qed.
+
+Lemma core_override_bracketed sc pl h3 h p v :
+  wf_host h = true -> wf_port_opt p = true -> wf_host (HV6 v) = true ->
+  let ep := endpoint_core sc pl h3 (authority h p) (ch_lbr :: v ++ [ch_rbr]) in
+  ep_dial ep = join_host_port v (default_port sc) /\
+  ep_net ep = expected_net sc h3 /\
+  ep_sni ep = (if uses_tls sc then Some (host_name h) else None) /\
+  ep_host ep = (if uses_http sc then Some (authority h p) else None).
+Proof.
+  intros W Wp Wd. destruct (url_host_facts h p (default_port sc) W Wp) as [_ Hs].
+  unfold endpoint_core. cbn [ep_dial ep_net ep_sni ep_host].
+  rewrite (dial_bracketed_facts _ v (default_port sc) Wd), Hs.
+  unfold expected_net, network_of.
+  rewrite (join_not_unix (HV6 v) _ Wd). repeat split.
 Qed.
 
 Lemma core_unix sc pl h3 h p d :
@@ -567,6 +611,20 @@ Lemma dial_target_override st k h p path dh dpo :
 Proof.
   intros Hs Hp W Wp Wd Wdp sc h3. eexists. split; [apply (endpoint_of_any st k h p path _ Hs Hp W Wp)|].
   apply core_override; assumption.
+Qed.
+
+Lemma dial_target_override_bracketed st k h p path v :
+  scheme_entry st k -> path_ok st path -> wf_host h = true -> wf_port_opt p = true ->
+  wf_host (HV6 v) = true ->
+  let sc := fst (fst k) in let h3 := snd k in
+  exists ep, endpoint_of (url_of st h p path) (ch_lbr :: v ++ [ch_rbr]) = Ok ep /\
+    ep_dial ep = join_host_port v (default_port sc) /\
+    ep_net ep = expected_net sc h3 /\
+    ep_sni ep = (if uses_tls sc then Some (host_name h) else None) /\
+    ep_host ep = (if uses_http sc then Some (authority h p) else None).
+Proof.
+  intros Hs Hp W Wp Wd sc h3. eexists. split; [apply (endpoint_of_any st k h p path _ Hs Hp W Wp)|].
+  apply core_override_bracketed; assumption.
 Qed.
 
 Lemma dial_target_unix st k h p path d :
